@@ -17,7 +17,20 @@ class Unmodelled(Exception):
     pass
 
 
+LENIENT = [False]
+
+
 def ratio_to_frac(x):
+    if LENIENT[0]:
+        # fuzzing stores arbitrary floats; the structural invariants judged
+        # there do not depend on the ratio
+        try:
+            f = Fraction(x).limit_denominator(1000)
+            if abs(f.numerator) < (1 << 30):
+                return f.numerator, f.denominator
+        except Exception:
+            pass
+        return 1, 1
     f = Fraction(x)
     if f.denominator > (1 << 16) or abs(f.numerator) > (1 << 30):
         f2 = Fraction(x).limit_denominator(1000)
